@@ -16,18 +16,13 @@ Definition suffix_model_ok (c : suffix_case) : bool := let '(p, obs) := c in str
 Definition mf_case := (list str * option (list str) * option (list str) * list str)%type.
 Definition mf_model_ok (c : mf_case) : bool :=
   let '(rels, exc, inc, obs) := c in strs_eqb (match_files defaults rels exc inc) obs.
-Fixpoint strictly_sorted (l : list str) : bool :=
-  match l with
-  | a :: tl => match tl with b :: _ => match str_cmp a b with Lt => strictly_sorted tl | _ => false end | [] => true end
-  | [] => true
-  end.
 Definition mf_spec_ok (c : mf_case) : bool :=
   let '(rels, exc, inc, obs) := c in
   let inc' := or_default inc (fst pinned_defaults) in
   let exc' := or_default exc (snd pinned_defaults) in
   forallb (fun f => Bool.eqb (mem_str f obs) (selectedb inc' exc' f)) rels
-  && forallb (fun f => mem_str f rels) obs
-  && strictly_sorted obs.
+  && forallb (fun f => mem_str f rels) obs.
+(** the order / absence of repetitions of the result is compared by [mf_model_ok] only (ordering is C11's concern) *)
 
 (** End to end, find-and-fix mode: a tree whose regular files all carry a trigger, the user's pattern lists, and the
     observed set of changed files (target-relative, sorted by the harness). *)
@@ -38,15 +33,43 @@ Definition tree_of (l : list (str * N)) : tree := map (fun e => (fst e, node_of 
 Definition py_ext : list str := [[46; 112; 121]%N].
 Definition e2e_model_ok (c : e2e_case) : bool :=
   let '(t, exc, inc, obs) := c in
-  strs_eqb (List.filter (fun _ => true) (ff_files_to_analyze defaults py_ext (files_for_directory (tree_of t)) exc inc)) obs.
+  strs_eqb (ff_files_to_analyze ff_exclude_sentinel defaults py_ext (files_for_directory (tree_of t)) exc inc) obs.
 Definition e2e_spec_ok (c : e2e_case) : bool :=
   let '(t, exc, inc, obs) := c in
   let inc' := or_default (or_none inc) (fst pinned_defaults) in
-  let exc' := or_default (or_none exc) (snd pinned_defaults) in
+  let exc' := or_default (or_none (file_level exc)) (snd pinned_defaults) in
   forallb (fun e => Bool.eqb (mem_str (fst e) obs)
                              (is_regular (node_of (snd e)) && str_eqb (suffix_of (fst e)) [46; 112; 121]%N
                               && selectedb inc' exc' (fst e))) t
   && forallb (fun f => existsb (fun e => str_eqb (fst e) f) t) obs.
+(** the same expectation under the pinned reading (`path_exclude or None`): used only to CLASSIFY a spec failure *)
+Definition e2e_raw_sentinel_ok (c : e2e_case) : bool :=
+  let '(t, exc, inc, obs) := c in
+  strs_eqb (ff_files_to_analyze RawOrNone pinned_defaults py_ext (files_for_directory (tree_of t)) exc inc) obs.
+
+(** End to end with a dependency-adding codemod: [obs_src] = changed files that are not manifests, [obs_man] = changed
+    manifests (target-relative; a manifest written through a symlink shows up in the outside tree instead). *)
+Definition dep_case := (list (str * N) * list str * list str * list str * list str)%type.
+Definition is_manifest (p : str) : bool := mem_str (path_name p) manifest_names.
+Definition dep_model_ok (c : dep_case) : bool :=
+  let '(t, exc, inc, obs_src, obs_man) := c in
+  let src := List.filter (fun p => negb (is_manifest p))
+               (ff_files_to_analyze ff_exclude_sentinel defaults py_ext (files_for_directory (tree_of t)) exc inc) in
+  let cands := manifest_candidates manifest_locations manifest_exclusion defaults (tree_of t) exc in
+  let regular_cands := List.filter (fun p => existsb (fun e => str_eqb (fst e) p && is_regular (node_of (snd e))) t) cands in
+  strs_eqb src obs_src
+  && forallb (fun m => mem_str m cands) obs_man
+  && (Nat.leb (length obs_man) 1)
+  (* a dependency is added iff some source file was rewritten; the first store whose writer succeeds is written; when
+     every candidate is a regular file of the tree the write is visible inside the tree *)
+  && (match src, cands with
+      | _ :: _, _ :: _ => if Nat.eqb (length regular_cands) (length cands) then Nat.eqb (length obs_man) 1 else true
+      | _, _ => Nat.eqb (length obs_man) 0
+      end).
+(** the property text: the files changed are the selected source files - nothing else *)
+Definition dep_spec_ok (c : dep_case) : bool :=
+  let '(t, exc, inc, obs_src, obs_man) := c in
+  e2e_spec_ok (t, exc, inc, obs_src) && match obs_man with [] => true | _ => false end.
 
 (** End to end, SAST mode: [res] = files for which the tool reported a finding; registry default includes given. *)
 Definition sast_case := (list (str * N) * list str * list str * list str * list str * list str)%type.
